@@ -1,6 +1,7 @@
 /* C12: TinyJAMBU-HMAC == RFC 2104 over the (abstract) hash.
  * -DKEYLEN -DMSGLEN -DVARIANT: 0 one-shot; 1 init/update(C1)/update(rest)/finalize;
- *  2 init, update(PRE arbitrary bytes), reinit, update(msg), finalize == HMAC(key, msg) */
+ *  2 init, update(PRE arbitrary bytes), reinit, update(msg), finalize == HMAC(key, msg)
+ *  3 / 4 one-shot / streamed with the output written over the key buffer (out == key) */
 #include "verif.h"
 #include "TinyJAMBU.h"
 #include "kdf_spec.h"
@@ -17,7 +18,18 @@ VERIF_MAIN_BEGIN
     unsigned char exp[32];
     IN_BYTES(key, key, KEYLEN); IN_BYTES(msg, msg, MSGLEN);
     out = verif_alloc(32);
-#if VARIANT == 0
+#if VARIANT == 3    /* the MAC is written over the key buffer itself (in-place key ratchet): out == key, KEYLEN >= 32 */
+    out = key;
+    tinyjambu_hmac(out, key, KEYLEN, msg, MSGLEN);
+#elif VARIANT == 4  /* streamed, finalize writes the MAC over the key buffer */
+    {
+        tinyjambu_hmac_state_t st;
+        out = key;
+        tinyjambu_hmac_init(&st, key, KEYLEN);
+        tinyjambu_hmac_update(&st, msg, MSGLEN);
+        tinyjambu_hmac_finalize(&st, key, KEYLEN, out);
+    }
+#elif VARIANT == 0
     tinyjambu_hmac(out, key, KEYLEN, msg, MSGLEN);
 #else
     {
@@ -38,6 +50,8 @@ VERIF_MAIN_BEGIN
 #endif
     spec_hmac(exp, IN_key, KEYLEN, IN_msg, MSGLEN);
     for (unsigned i = 0; i < 32; ++i) CHECK(out[i] == exp[i], "HMAC equals RFC 2104 over the same hash");
+#if VARIANT != 3 && VARIANT != 4
     for (size_t i = 0; i < KEYLEN; ++i) CHECK(key[i] == IN_key[i], "key unmodified");
+#endif
     for (size_t i = 0; i < MSGLEN; ++i) CHECK(msg[i] == IN_msg[i], "message unmodified");
 VERIF_MAIN_END
